@@ -104,7 +104,7 @@ prop("C09",
 
 prop("C10",
      specgen=(40, 500),
-     scripts=lambda tier, rnd: S.stop_points() + S.gated() + S.api_races() + S.pm_busy() + S.stop_dial_race(12 if tier == "thorough" else 3) +
+     scripts=lambda tier, rnd: S.stop_points() + S.gated() + S.api_races() + S.pm_busy() + S.close_race_connect(12 if tier == "thorough" else 4) + S.stop_dial_race(12 if tier == "thorough" else 3) +
      S.stop_everywhere(rnd, 400 if tier == "thorough" else 60),
      mc=lambda tier: [mc_pair(["openLo", "ka"])] if tier == "quick" else
      [mc_pair(["openLo", "ka", "upd"], dials=2), mc_pair(["openHi", "ka", "notif"], dials=2),
@@ -204,7 +204,8 @@ prop("C20",
 prop("C05",
      pure=["big", "deframe", "prefix"],
      specgen=(30, 300),
-     scripts=lambda tier, rnd: S.pm_busy() + S.api_races() + sample(S.pacing(), rnd, 120 if tier == "thorough" else 25) +
+     scripts=lambda tier, rnd: S.pm_busy() + S.api_races() + S.close_race_connect(12 if tier == "thorough" else 4) +
+     sample(S.pacing(), rnd, 120 if tier == "thorough" else 25) +
      sample(S.two_sessions(), rnd, 21 if tier == "thorough" else 6) + S.stop_dial_race(2) +
      S.stop_everywhere(rnd, 200 if tier == "thorough" else 25) + S.fuzz(rnd, 400 if tier == "thorough" else 50) + S.message_grid(rnd, 300 if tier == "thorough" else 60) +
      S.notif_values(rnd, 120 if tier == "thorough" else 25) + (S.trailing() if tier == "thorough" else sample(S.trailing(), rnd, 60)),
